@@ -30,11 +30,9 @@ def _abs(x):
 
 def ext_np_abs(ex, st, args, kwargs, node):
     (a,) = args
-    if isinstance(a, (wp.Arr, wp.View)) and a.ndim == 1:
-        out = st.new_array(a.shape, "abs")
-        i = z3.Int("i!abs")
-        st.pc.append(z3.ForAll([i], out.sel(st.heap, i) == _abs(a.sel(st.heap, i)), patterns=[out.sel(st.heap, i)]))
-        return out
+    if isinstance(a, (wp.Arr, wp.View, wp.ColView, wp.LazyArr)) and a.ndim == 1:
+        heap_now = dict(st.heap)
+        return wp.LazyArr(a.shape, lambda i: _abs(a.sel(heap_now, i)))
     return _abs(wp._real(a))
 
 
@@ -47,6 +45,7 @@ def ext_argmin(ex, st, args, kwargs, node):
     (a,) = args
     if a.ndim != 1 or kwargs:
         raise wp.Unsupported("argmin of a 1-d array expected")
+    a = wp.materialise(st, a, "argmin_arg")
     n = a.shape[0]
     ex.oblige(f"argmin_of_a_non_empty_array@line{node.lineno}", st, n >= 1)
     k = wp.fresh("argmin", wp.INT)
